@@ -1348,7 +1348,7 @@ Expression:
 
 DynamicExpression:
         T_SPAWN NonTypeId {
-	    CALL(@1,@2, expr_identifier($2));
+	    CALL(@2,@2, expr_identifier($2));
 	} '(' ArgList ')' {
 	    CALL(@1,@6, expr_spawn($5));
 	}
